@@ -361,6 +361,21 @@ def walk(design, mname, path, uf, devices, stack, strict_extra=True):
     for inst, p in getattr(sc, "missing", []):
         if (inst, p) not in sc.prefs_used:
             raise Invalid("unconnected", f"{mname}.{inst}.{p}")
+        # an array port that is only referenced hangs on one implicit net of the port's own width: broadcast to every element
+        d = sc.names[inst]
+        if d[0] == "array":
+            ptype = target_ports(design, d[2])[p]
+            els = elem_paths(sc, d)
+            first = child_port_nodes(sc, path + (els[0],), p, ptype)
+            for el in els[1:]:
+                other = child_port_nodes(sc, path + (el,), p, ptype)
+                if ptype[0] == "sig":
+                    for x, y in zip(first, other):
+                        uf.union(x, y)
+                else:
+                    for mem in first:
+                        for x, y in zip(first[mem], other[mem]):
+                            uf.union(x, y)
     # no-connect rules
     for ncid, n in sc.nc_uses.items():
         pass
